@@ -400,6 +400,57 @@ def h_chord_wiring(c):
             'from the parameters of this very call')
 
 
+def h_melody_wiring(c):
+  """Every call of infer_melody_for_sequence hands the Viterbi kernel the
+  transition and frame models built from ITS OWN five parameters: the model
+  builders are stubs that encode their arguments in the value they return and
+  the kernel stub records what it receives."""
+  import math  # pylint: disable=g-import-not-at-top
+  mi = c.mod('melody_inference')
+  pb = c.pb
+  np = c.np
+  seen = []
+
+  def trans(rest_prob, interval_prob_fn):
+    return np.full([257, 257], 1.0 + rest_prob + 10 * interval_prob_fn(1.0))
+
+  def frame(pitches, has_onsets, has_notes, durations,
+            instantaneous_non_max_pitch_prob,
+            instantaneous_non_empty_rest_prob,
+            instantaneous_missing_pitch_prob):
+    return np.full([len(has_onsets), 1 + 2 * len(pitches)],
+                   instantaneous_non_max_pitch_prob +
+                   10 * instantaneous_non_empty_rest_prob +
+                   100 * instantaneous_missing_pitch_prob)
+
+  def viterbi(pitches, melody_frame_loglik, melody_transition_loglik):
+    seen.append((melody_frame_loglik[0][0], melody_transition_loglik[0][0]))
+    return [mi.REST] * len(melody_frame_loglik)
+
+  calls = c.params['calls']
+  with _Stubs(mi, _melody_transition_distribution=trans,
+              _melody_frame_log_likelihood=frame, _melody_viterbi=viterbi):
+    for (scale, rest, nm, ne, mp) in calls:
+      seq = pb.NoteSequence()
+      n = seq.notes.add()
+      n.pitch, n.velocity = c.choice('p%d' % len(seen), [0, 60, 127]), 80
+      n.start_time, n.end_time = 0.0, 1.0
+      seq.total_time = 1.0
+      mi.infer_melody_for_sequence(
+          seq, melody_interval_scale=scale, rest_prob=rest,
+          instantaneous_non_max_pitch_prob=nm,
+          instantaneous_non_empty_rest_prob=ne,
+          instantaneous_missing_pitch_prob=mp)
+  c.check(len(seen) == len(calls), 'the kernel runs once per call')
+  for (scale, rest, nm, ne, mp), (fl, tl) in zip(calls, seen):
+    c.check(abs(fl - (nm + 10 * ne + 100 * mp)) < 1e-9,
+            'the kernel receives the frame model built from the three '
+            'instantaneous probabilities of this very call')
+    c.check(abs(tl - math.log(1.0 + rest + 10 / (1 + (1 / scale) ** 2))) < 1e-9,
+            'the kernel receives the transition model built from rest_prob and '
+            'melody_interval_scale of this very call')
+
+
 def h_melody_notes(c):
   """The note-writing stage of infer_melody_for_sequence on an ARBITRARY valid
   event path: sequence_note_frames runs for real (set / sort / bisect over
@@ -503,6 +554,7 @@ HARNESSES = {'h_melody_viterbi': h_melody_viterbi,
              'h_chord_annotations': h_chord_annotations,
              'h_melody_notes': h_melody_notes,
              'h_chord_wiring': h_chord_wiring,
+             'h_melody_wiring': h_melody_wiring,
              'h_melody_viterbi_wide': h_melody_viterbi_wide,
              'h_chord_viterbi': h_chord_viterbi}
 
@@ -535,6 +587,11 @@ def jobs(tier):
       keys=[0], chords=['N.C.', [0, '']], budget=900)
   add('h_chord_wiring', calls=[[0.5, 0.001, 0.5], [0.01, 0.001, 0.5],
                                [0.01, 0.002, 0.5], [0.01, 0.002, 0.25]])
+  add('h_melody_wiring', calls=[[2.0, 0.1, 1e-3, 1e-4, 1e-5],
+                                [3.0, 0.1, 1e-3, 1e-4, 1e-5],
+                                [3.0, 0.2, 2e-3, 1e-4, 1e-5],
+                                [3.0, 0.2, 2e-3, 3e-4, 1e-5],
+                                [3.0, 0.2, 2e-3, 3e-4, 7e-5]])
   add('h_melody_notes', N=1, K=3)
   add('h_melody_notes', N=1, K=3, pitches=[0, 127])  # the ends of the range
   add('h_melody_notes', N=2, K=3, budget=900)
